@@ -47,7 +47,7 @@ BLOCKS = [
     ("nrzi", "nrzi", [""], 4, False, "NrziDecode::work (sync macro)"),
     ("descrambler", "descrambler", [""], 4, False, "Descrambler::work (sync macro)"),
     ("slicer", "binary_slicer", [""], 3, False, "BinarySlicer::work (sync macro)"),
-    ("mag2", "complex_to_mag2", [""], 2, False, "ComplexToMag2::work (sync macro)"),
+    ("mag2", "complex_to_mag2", [""], 1, False, "ComplexToMag2::work (sync macro)"),
     ("iir", "single_pole_iir", [""], 2, False, "SinglePoleIirFilter<f32>::work (sync macro)"),
     ("cac", "correlate_access_code", [", 2, 0", ", 3, 1"], 4, False, "CorrelateAccessCode::work (sync macro)"),
     ("skip", "skip", [", 0", ", 1", ", 3"], 4, True, "Skip::work"),
@@ -68,7 +68,10 @@ def all_harnesses():
                     br = L + 3
                     pn = extra.replace(", ", "_").replace(" ", "")
                     name = f"c08_{key}{pn}_c{cap}_{sname(s)}"
-                    core = cap == 2 and sname(s) in core_set and (ei == 0 or key in ("delay", "resamp", "skip"))
+                    core_list = [sname(x) for x in schedules(cap, False)]
+                    idx = core_list.index(sname(s)) if sname(s) in core_set else -1
+                    core = cap == 2 and idx >= 0 and ((key in ("delay", "resamp", "skip", "rtlsdr") and idx in (1, 2, 4)) or
+                                                      (key == "xorconst" and idx in (0, 1, 2)) or (ei == 0 and idx == 2))
                     if key == "resamp" and extra not in (", 2, 1", ", 3, 2", ", 1, 2"):
                         core = False
                     hs.append(Harness(name, f"crate::c08::{fn}({L}, {cap}, {rs_sched(s)}, {br}{extra})",
@@ -96,15 +99,23 @@ def extra_harnesses():
             for cap_out in (1, 8):
                 hs.append(Harness(f"c08_audec_n{nd}_s{si}_o{cap_out}", f"crate::c08::au_decode({nd}, 40, {cap_out}, {rs_sched(s)}, 14)", unwind=44,
                                   unit="AuDecode::work", timeout=1800, shape={"block": "audecode", "data_bytes": nd, "cap_out": cap_out, "schedule": s},
-                                  core=(nd == 5 and si in (0, 2) and cap_out == 8)))
+                                  core=False))
+    # AuDecode data state only (cheap): odd/even piece sizes
+    for nd in (4, 5, 6):
+        for ci, (cap_in, cap_out) in enumerate(((3, 2), (5, 1), (4, 3))):
+            for si, s in enumerate(([(3, 0), (2, 1), (3, 1)], [(1, 0), (1, 0), (3, 2)], [(cap_in, 0), (cap_in, 0), (1, 1)], [(2, 2), (3, 0), (1, 0)])):
+                hs.append(Harness(f"c08_audata_n{nd}_i{cap_in}o{cap_out}_s{si}", f"crate::c08::au_decode_data({nd}, {cap_in}, {cap_out}, {rs_sched(s)}, {nd + 4})",
+                                  unwind=14, unit="AuDecode::work (data state)", timeout=1200,
+                                  shape={"block": "audecode-data", "data_bytes": nd, "cap_in": cap_in, "cap_out": cap_out, "schedule": s},
+                                  core=(nd == 5 and ci == 0 and si in (0, 1)) or (nd == 6 and ci == 2 and si == 3)))
     for l in (1, 2):
         for cap in (2, 3, 5):
             for si, s in enumerate(([(1, 1)] * 3, [(2, 0), (0, 2), (2, 1)])):
                 hs.append(Harness(f"c08_auenc_l{l}_c{cap}_s{si}", f"crate::c08::au_encode({l}, {cap}, {rs_sched(s)}, {40 // 1})", unwind=46,
                                   unit="AuEncode::work", timeout=1800, shape={"block": "auencode", "L": l, "cap": cap, "schedule": s},
-                                  core=(l == 2 and cap == 3 and si == 1)))
+                                  core=False))
     return hs
 
 
 def harnesses(tier, seed):
-    return select(all_harnesses() + extra_harnesses(), tier, seed, 8)
+    return select(all_harnesses() + extra_harnesses(), tier, seed, 6)
